@@ -132,6 +132,7 @@ ReplayOk(vis, ps) ==
   IF ps = <<>> THEN TRUE
   ELSE LET p == Head(ps)  v2 == ApplyPost(vis, << p >>) IN
        /\ (p[1] \in Exempt \/ Get(v2, <<p[1], p[4]>>) >= Floor(p[1], p[4]))
+       /\ (p[2] \in Exempt \/ Get(v2, <<p[2], p[4]>>) >= Floor(p[2], p[4]))      \* (a negative amount would drain the receiver)
        /\ ReplayOk(v2, Tail(ps))
 C01_NoOverdraft ==
   Check("C01", "replay of the postings drives an account below its floor",
